@@ -262,7 +262,7 @@ class Exec(ExprMixin, AccessMixin, CallMixin, StmtMixin, SpecMixin, HeapMixin, O
     if isinstance(v, VRef) and isinstance(v.cls, ClassInfo):
       for (cname, f), kind in self.ctx.registry.fields.items():
         if kind.tag != 'py' and any(c.name == cname for c in v.cls.mro()):
-          self.ctx.observe.append(('%s.%s' % (label, f), z3.Select(st.harr((cname, f), kind.sort()), v.t)))
+          self.ctx.observe.append(('%s.%s' % (label, f), z3.Select(st.harr((cname, f), kind.sort(), is_ref=kind.tag in ('ref', 'exc', 'list', 'dict', 'set', 'tuple')), v.t)))
     elif isinstance(v, VRef) and v.cls in ('list', 'tuple'):
       self.ctx.observe.append(('len(%s)' % label, self.list_len(st, v)))
       for i in range(4):
